@@ -160,36 +160,58 @@ func runC09(e *Engine, r *Report) {
 			continue
 		}
 		// there is a branch `high > maxIndex+1` whose true edge lowers high to maxIndex+1
-		okClamp := false
-		forEachInstr(impl, func(in ssa.Instruction) {
-			b, ok := in.(*ssa.BinOp)
-			if !ok || b.Op.String() != ">" || stripConv(b.X) != ssa.Value(high) {
-				return
-			}
-			if add, ok := stripConv(b.Y).(*ssa.BinOp); ok && add.Op.String() == "+" && stripConv(add.X) == ssa.Value(mi) && intConstV(1)(add.Y) {
-				okClamp = true
-			}
-		})
-		// and the clamped value feeds the range end used afterwards (a phi of high and maxIndex+1)
-		okUse := false
-		forEachInstr(impl, func(in ssa.Instruction) {
-			if ph, ok := in.(*ssa.Phi); ok {
-				hasHigh, hasClamp := false, false
-				for _, ed := range ph.Edges {
-					if stripConv(ed) == ssa.Value(high) {
-						hasHigh = true
+		// the requested upper bound reaches the iteration only after being
+		// limited by the recorded logical end: every use of the raw `high`
+		// parameter is a comparison, the merge with a maxIndex-derived value
+		// (`if high > maxIndex+1 { high = maxIndex+1 }` in any spelling), or the
+		// call of a helper that receives maxIndex as well (a clamp helper);
+		// and such a merge/helper exists
+		isMi := func(v ssa.Value) bool { return stripConv(v) == ssa.Value(mi) }
+		okClamp, okUse := false, true
+		var rawUse ssa.Instruction
+		if refs := high.Referrers(); refs != nil {
+			for _, u := range *refs {
+				switch x := u.(type) {
+				case *ssa.DebugRef:
+				case *ssa.BinOp:
+					if cmpString(x.Op) == "" {
+						okUse, rawUse = false, u
 					}
-					if add, ok := stripConv(ed).(*ssa.BinOp); ok && add.Op.String() == "+" && stripConv(add.X) == ssa.Value(mi) {
-						hasClamp = true
+				case *ssa.Phi:
+					dep := false
+					for _, ed := range x.Edges {
+						if stripConv(ed) != ssa.Value(high) && e.dependsOn(ed, isMi, 0) {
+							dep = true
+						}
 					}
-				}
-				if hasHigh && hasClamp {
-					okUse = true
+					if dep {
+						okClamp = true
+					} else {
+						okUse, rawUse = false, u
+					}
+				case *ssa.Call:
+					dep := false
+					for _, a := range x.Call.Args {
+						if stripConv(a) != ssa.Value(high) && e.dependsOn(a, isMi, 0) {
+							dep = true
+						}
+					}
+					if sc := x.Call.StaticCallee(); dep && sc != nil && fnPkg(sc) == fnPkg(impl) {
+						okClamp = true
+					} else {
+						okUse, rawUse = false, u
+					}
+				default:
+					okUse, rawUse = false, u
 				}
 			}
-		})
-		r.check(okClamp && okUse, "DEP-iterate-bound", fname(impl)+" clamps high to maxIndex+1", e.pos(impl.Pos()),
-			"no entry past the logical end is returned", "the iteration no longer clamps its upper bound by the recorded max index: stale entries past the logical end can be returned")
+		}
+		pos := e.pos(impl.Pos())
+		if rawUse != nil {
+			pos = e.ipos(rawUse)
+		}
+		r.check(okClamp && okUse, "DEP-iterate-bound", fname(impl)+" clamps high to maxIndex+1", pos,
+			"no entry past the logical end is returned", "the iteration uses the requested upper bound without limiting it by the recorded max index: stale entries past the logical end can be returned")
 		// contiguity: an expected-index test exists
 		entIndex := e.Field("raftpb", "Entry", "Index")
 		okExp := false
